@@ -21,7 +21,7 @@ import Thanos.Model.CompactProto
       -> per action, `;`-joined:  <ok|no>/<unmarked ids>/<marked ids>/<loaded ids of gateway 0>|<of gateway 1>|…
       (a disabled action answers `no` and leaves the state unchanged)
     cp.valid <deleteDelay> <events `,`-joined>      (C29 trace validation)
-      event = s | t:<d> | +<id>:<level>:<parents +>:<sources +> | m:<id> | -<id>
+      event = s | r (read fault) | t:<d> | +<id>:<level>:<parents +>:<sources +> | m:<id> | -<id>
       -> valid | invalid@<k>:<event>     (is every event a transition of the model: compact / gc|markSource / clean / tick)
 -/
 open Thanos Thanos.Parse
@@ -136,6 +136,7 @@ def dropChars (n : Nat) (s : String) : String := String.ofList (s.toList.drop n)
 
 def validEvent (P : Params) (s : State) (ev : String) : Option State :=
   if ev = "s" then step P s .ship
+  else if ev = "r" then step P s .readFault
   else if ev.startsWith "t:" then
     match parseNat? (dropChars 2 ev) with
     | some d => step P s (.tick d)
